@@ -43,6 +43,10 @@ def run(prog, rep):
     rep.expect_min("C07.family", 16)
     rep.expect_min("C07.size", 2)
     rep.expect_min("C07.noseed", 2)
+    # seed 0 is a seed: random_state is never tested by truth
+    from .falsy import rows as _falsy_rows
+    rep.part(_falsy_rows, prog, rep, "C07.seedzero", lambda name: "random_state" in name or "seed" in name)
+    rep.expect_min("C07.seedzero", 1)
     from .purity import row as _stateless_row
     rep.part(_stateless_row, prog, rep, "C07", 5)
     # "each conditional variable is drawn from its conditional distribution": how ConditionalDistribution.draw_sample hands the
